@@ -823,7 +823,32 @@ func commitMechanisms(p rProg, ref *refState, dyn []dynIns, surv []int, obs *obs
 			}
 		}
 	}
+	// rename-ring-overflow: the rename table keeps the last 10 uncommitted values of a register and nothing
+	// stops the 11th writer; a reader that has been parked since before those writes then finds no value of
+	// its own age in the ring and falls back to the committed one. Counted here: write-backs of a source
+	// register since the last resolved conditional branch (the last commit) before the instruction executed.
+	overflow := false
+	if k < len(ref.Trace) && k < len(surv) && dyn[surv[k]].Exec > 0 {
+		for _, reg := range regs {
+			n := 0
+			for i := dyn[surv[k]].Exec - 1; i >= 0 && reg > 0; i-- {
+				r := obs.Log[i]
+				if r.Kind == risc.VerifKindExec && isCond(r.Pc) {
+					break
+				}
+				if r.Kind == risc.VerifKindRegWB && int(r.A) == reg {
+					n++
+				}
+			}
+			if n >= 10 {
+				overflow = true
+			}
+		}
+	}
 	var out []string
+	if overflow {
+		out = append(out, "rename-ring-overflow")
+	}
 	if landed {
 		out = append(out, "older-writer-landed-after-commit")
 	}
